@@ -221,7 +221,7 @@ def values(draw, t):
         return draw(str_values(BMP, 65535))
     if k == "STRINGN":
         cs = t.get("cs", 1)
-        return draw(str_values({1: ASCII, 2: BMP, 4: ANY32}[cs], 65535))
+        return draw(str_values({1: LATIN1, 2: BMP, 4: ANY32}[cs], 65535))   # one byte per character: every 8-bit character
     if k == "STRINGI":
         n = draw(st.integers(0, 4))
         out = []
